@@ -166,6 +166,7 @@ orc_parse_code (const char *code, OrcProgram ***programs, int *n_programs,
   OrcParser _parser;
   OrcParser *parser = &_parser;
   int enable_errors = (errors && n_errors);
+  int have_errors;
 
   orc_parse_init (parser, code, enable_errors);
 
@@ -207,9 +208,14 @@ orc_parse_code (const char *code, OrcProgram ***programs, int *n_programs,
     orc_parse_sanity_check (parser, parser->program);
   }
 
+  have_errors = orc_vector_has_data (&parser->errors);
   if (enable_errors) {
-    *errors = ORC_VECTOR_AS_TYPE (&parser->errors, OrcParseError);
     *n_errors = orc_vector_length (&parser->errors);
+    if (*n_errors > 0) {
+      /* orc_parse_error_freev() expects a NULL terminated array */
+      orc_vector_append (&parser->errors, NULL);
+    }
+    *errors = ORC_VECTOR_AS_TYPE (&parser->errors, OrcParseError);
   }
 
   if (orc_vector_has_data (&parser->programs)) {
@@ -223,7 +229,7 @@ orc_parse_code (const char *code, OrcProgram ***programs, int *n_programs,
   if (n_programs) {
     *n_programs = orc_vector_length (&parser->programs);
   }
-  return orc_vector_has_data (&parser->errors) ?-1 :0;
+  return have_errors ?-1 :0;
 }
 
 static void
